@@ -1,6 +1,7 @@
 //! vh — verification harness for tower-resilience. Drives the real middleware under a
 //! deterministic simulator and writes ndjson traces that TLC validates against /verif/spec.
 mod adapters;
+mod atomic;
 mod drive;
 mod sim;
 use drive::*;
@@ -37,7 +38,19 @@ fn main() {
     let mut lines: Vec<String> = vec![];
     let stats;
     let variant = arg(&args, "--variant").unwrap_or_default();
-    if let Some(mut ad) = adapter(&comp, &variant) {
+    if comp == "budget" || comp == "limit" {
+        let (ns, ne, ex) = if mode == "replay" {
+            let input = std::fs::read_to_string(arg(&args, "--in").expect("--in")).expect("read input");
+            let (a, b) = adapters::budget::replay(&input, &mut lines);
+            (a, b, false)
+        } else if comp == "budget" {
+            adapters::budget::run_budget(seed, size, &mut lines)
+        } else {
+            adapters::budget::run_limit(seed, size, &mut lines)
+        };
+        stats = RunStats { runs: ns, events: ne, skipped: 0 };
+        eprintln!("{{\"exhaustive\":{}}}", ex);
+    } else if let Some(mut ad) = adapter(&comp, &variant) {
         let rt = tokio::runtime::Builder::new_current_thread().enable_time().start_paused(true).build().unwrap();
         stats = rt.block_on(async {
             match mode.as_str() {
